@@ -371,6 +371,21 @@ def rule_G(ctx) -> None:
             rsrc = ast.unparse(rpc)
             req_ok = ("await stream.recv_message()" in rsrc) != cs and ("stream.__aiter__()" in rsrc) == cs
             rep_ok = ("_call_rpc_handler_server_stream" in rsrc) == ss and ("stream.send_message(response)" in rsrc) != ss
+            if not rep_ok and not ss and "_call_rpc_handler_server_stream" not in rsrc:
+                # the unary reply may be sent by a helper of ServiceBase: it awaits the handler once on the request it is given
+                # and sends exactly that result
+                srv_mod = ctx.repo.mod(M_SERVER)
+                for c in ast.walk(rpc):
+                    if isinstance(c, ast.Call) and isinstance(c.func, ast.Attribute) and isinstance(c.func.value, ast.Name) and c.func.value.id == "self" \
+                            and srv_mod.has(f"ServiceBase.{c.func.attr}") and len(c.args) == 3 and [ast.unparse(a) for a in c.args[1:]] == ["stream", "request"]:
+                        hf = srv_mod.func(f"ServiceBase.{c.func.attr}")
+                        hp = [a.arg for a in hf.args.args[1:]]
+                        if len(hp) == 3 and not any(isinstance(n, (ast.For, ast.AsyncFor, ast.While)) for n in ast.walk(hf)):
+                            awaited = [n for n in ast.walk(hf) if isinstance(n, ast.Assign) and isinstance(n.value, ast.Await) and isinstance(n.value.value, ast.Call)
+                                       and ast.unparse(n.value.value.func) == hp[0] and [ast.unparse(a) for a in n.value.value.args] == [hp[2]] and isinstance(n.targets[0], ast.Name)]
+                            sends = [n for n in ast.walk(hf) if isinstance(n, ast.Call) and ast.unparse(n.func) == f"{hp[1]}.send_message"]
+                            if len(awaited) == 1 and len(sends) == 1 and sends[0].args and ast.unparse(sends[0].args[0]) == awaited[0].targets[0].id:
+                                rep_ok = True
             # the received message reaches the handler whatever its value: a message whose fields all hold defaults is falsy
             # (Message.__bool__), so only an identity test against None may stand between recv_message() and the handler
             truthy = [n for n in ast.walk(rpc) if isinstance(n, (ast.If, ast.IfExp, ast.Assert, ast.While)) and any(
